@@ -19,18 +19,32 @@ theorem C05_gate (s : St) (c : Cmd) (hc : c ≠ .invalid) :
       (c.cls = .select ∧ s.user.isSome ∧ s.selected.isSome) := by
   cases c <;> simp_all [gate, Cmd.cls]
 
-@[simp] theorem count_user (r : St × Resp) : (count r).1.user = r.1.user := by
-  unfold count; split <;> (try split) <;> rfl
-@[simp] theorem count_selected (r : St × Resp) : (count r).1.selected = r.1.selected := by
-  unfold count; split <;> (try split) <;> rfl
-theorem count_resp (r : St × Resp) (h : r.2 ≠ .bad) : (count r).2 = r.2 := by
+@[simp] theorem count_user (x : Bool) (r : St × Resp) : (count x r).1.user = r.1.user := by
+  unfold count; split <;> (try split) <;> (try split) <;> rfl
+@[simp] theorem count_selected (x : Bool) (r : St × Resp) : (count x r).1.selected = r.1.selected := by
+  unfold count; split <;> (try split) <;> (try split) <;> rfl
+theorem count_resp (x : Bool) (r : St × Resp) (h : r.2 ≠ .bad) : (count x r).2 = r.2 := by
   unfold count; split
-  · rename_i hb; exact absurd hb h
   · rfl
-theorem count_closed (r : St × Resp) (h : r.2 ≠ .bad) : (count r).1.closed = r.1.closed := by
+  · split
+    · rename_i hb; exact absurd hb h
+    · rfl
+theorem count_closed (x : Bool) (r : St × Resp) (h : r.2 ≠ .bad) : (count x r).1.closed = r.1.closed := by
   unfold count; split
-  · rename_i hb; exact absurd hb h
   · rfl
+  · split
+    · rename_i hb; exact absurd hb h
+    · rfl
+
+theorem count_ne (x : Bool) (r : St × Resp) (k : Resp) (h1 : k ≠ .bad) (h2 : k ≠ .badBye) (h : r.2 ≠ k) :
+    (count x r).2 ≠ k := by
+  unfold count; split
+  · exact h
+  · split
+    · split
+      · exact fun e => h2 e.symm
+      · exact fun e => h1 e.symm
+    · exact h
 
 theorem step_user (s : St) (c : Cmd) : (step s c).1.user = if s.closed then s.user else (core s c).1.user := by
   unfold step; split <;> simp
@@ -152,9 +166,7 @@ theorem C09_logindisabled (s : St) (who : Option Nat) (hl : s.loginOff = true) :
   · rw [step_user]; split <;> simp [hcore.1]
   · unfold step; split
     · simp
-    · unfold count; split
-      · split <;> simp
-      · rename_i x hx; simp; exact hcore.2
+    · exact count_ne _ _ _ (by decide) (by decide) hcore.2
 
 /-- non-vacuity: the two sequences that used to misbehave -/
 example : (run (St.init false false) [.login (some 7), .authenticate true true (some 8)]).user = some 7 ∧
@@ -186,14 +198,10 @@ theorem C09_failed_keeps (s : St) (c : Cmd)
   · rw [step_selected]; split <;> simp [hcore.1]
   · unfold step; split
     · simp
-    · unfold count; split
-      · split <;> simp
-      · rename_i x hx; simp; exact hcore.2.1
+    · exact count_ne _ _ _ (by decide) (by decide) hcore.2.1
   · unfold step; split
     · simp
-    · unfold count; split
-      · split <;> simp
-      · rename_i x hx; simp; exact hcore.2.2
+    · exact count_ne _ _ _ (by decide) (by decide) hcore.2.2
 
 /-- non-vacuity: a wrong password after a successful STARTTLS on a fresh connection -/
 example : (run (St.init true true) [.starttls, .login none]).user = none := by decide
